@@ -1,0 +1,50 @@
+//go:build verif
+
+// Contracts for the deductive checker in /verif (gvc). Comments only.
+
+package builder
+
+//@ property C08
+
+// New stream ids are taken above every id of every existing index file (so a new conversation never gets an
+// id that is in use, whichever of the files holds the largest one).
+// maxid(r): the largest stream id stored in index file r. Assumed: ids stay below 2^63 (MaxStreamID()+1 does not wrap).
+//@ uninterp maxid(r any) uint64
+//@ extern (*github.com/spq/pkappa2/internal/index.Reader).MaxStreamID(r) m
+//@   ensures m == maxid(r) && m < 9223372036854775808
+//@ func (*Builder).FromPcap
+//@   nosafety
+//@   noframe
+//@   cutloops
+//@   loop 16 invariant fresh: forall(k, 0, rangeindex+1, nextStreamID > maxid(existingIndexes[k]))
+//@   assert before call (*Builder).FromPcap$5#1: fresh_ids: forall(k, 0, len(existingIndexes), nextStreamID > maxid(existingIndexes[k]))
+
+// The ids handed to the index writer: a stream either keeps the id under which an existing index file stores it
+// (found through its first packet) or gets the next free id, which is then used up - so the id written is always
+// below the next free id, and two new streams never get the same one.
+// sidb(s): the id of a stored stream. Assumed: ids stay below 2^63 (the increment does not wrap); a stream found in an index file has an id not above that file's largest.
+//@ uninterp sidb(s any) uint64
+//@ extern (*github.com/spq/pkappa2/internal/index.Reader).StreamByFirstPacketSource(r, filename, index) stream err
+//@   ensures implies(!isnil(stream), sidb(stream) <= maxid(r))
+//@ extern (*github.com/spq/pkappa2/internal/index.Stream).ID(s) r
+//@   ensures r == sidb(s)
+//@ func (*Builder).FromPcap$5
+//@   nosafety
+//@   noframe
+//@   cutloops
+//@   requires forall(k, 0, len(existingIndexes), nextStreamID > maxid(existingIndexes[k])) && nextStreamID < 9223372036854775808
+//@   loop 1 assume nextStreamID < 9223372036854775807
+//@   loop 2 assume nextStreamID < 9223372036854775807
+//@   loop 3 assume nextStreamID < 9223372036854775807
+//@   loop 4 assume nextStreamID < 9223372036854775807
+//@   loop 1 invariant next_free: forall(k, 0, len(existingIndexes), nextStreamID > maxid(existingIndexes[k]))
+//@   loop 2 invariant kept_or_fresh: id == nextStreamID || exists(k, 0, len(existingIndexes), id <= maxid(existingIndexes[k]))
+//@   loop 3 invariant kept_or_fresh: id == nextStreamID || exists(k, 0, len(existingIndexes), id <= maxid(existingIndexes[k]))
+//@   loop 4 invariant kept_or_fresh: id == nextStreamID || exists(k, 0, len(existingIndexes), id <= maxid(existingIndexes[k]))
+//@   loop 5 invariant kept_or_fresh: id == nextStreamID - 1 || exists(k, 0, len(existingIndexes), id <= maxid(existingIndexes[k]))
+//@   loop 2 invariant id_known: id <= nextStreamID && forall(k, 0, len(existingIndexes), nextStreamID > maxid(existingIndexes[k]))
+//@   loop 3 invariant id_known: id <= nextStreamID && forall(k, 0, len(existingIndexes), nextStreamID > maxid(existingIndexes[k]))
+//@   loop 4 invariant id_known: id <= nextStreamID && forall(k, 0, len(existingIndexes), nextStreamID > maxid(existingIndexes[k]))
+//@   loop 5 invariant id_used: id < nextStreamID && forall(k, 0, len(existingIndexes), nextStreamID > maxid(existingIndexes[k]))
+//@   assert before call (*github.com/spq/pkappa2/internal/index.Writer).AddStream#1: below_next: id < nextStreamID
+//@   assert before call (*github.com/spq/pkappa2/internal/index.Writer).AddStream#1: kept_or_fresh: id == nextStreamID - 1 || exists(k, 0, len(existingIndexes), id <= maxid(existingIndexes[k]))
